@@ -3187,7 +3187,9 @@ func (rl *clientConnReadLoop) processWindowUpdate(f *WindowUpdateFrame) error {
 	if !fl.add(int32(f.Increment)) {
 		// For stream, the sender sends RST_STREAM with an error code of FLOW_CONTROL_ERROR
 		if cs != nil {
-			rl.endStreamError(cs, StreamError{
+			// cc.mu is held: abort the stream without taking it again
+			cs.readAborted = true
+			cs.abortStreamLocked(StreamError{
 				StreamID: f.StreamID,
 				Code:     ErrCodeFlowControl,
 			})
